@@ -9,8 +9,9 @@ CONSTANTS
   KRe = @KRE@
   KMut2 = @KMUT2@
   KFn = @KFN@
+  KBad = @KBAD@
 INIT Init
 NEXT Next
 VIEW View
-INVARIANTS Emit RoundTrip1 RoundTrip2 ValuesValid Canonical1 Reenc2Equivalent FnResultRoundTrip
+INVARIANTS Emit RoundTrip1 RoundTrip2 ValuesValid Canonical1 Reenc2Equivalent FnResultRoundTrip WriteErrorIffInvalid1
 CHECK_DEADLOCK FALSE
